@@ -253,6 +253,8 @@ pub fn build(case: &Case) -> (Rule, Request, RouterConfig, bool, Vec<(String, St
     let req_host = host.clone().unwrap_or_else(|| "www.example.org".to_string());
     let mut req = Request::from_config(&rc, path.clone(), Some(req_host.clone()), Some("https".into()), Some("POST".into()), Some("10.2.3.4".parse().unwrap()), None);
     req.created_at = Some("2024-03-05T10:00:00Z".parse().unwrap());
+    // an unrelated header comes first: the header a pattern looks at is not the first line of the request
+    req.add_header("Accept".to_string(), "*/*".to_string(), rc.ignore_header_case);
     if let (Some((n, _)), Some(v)) = (t.header, &header_val) {
         let name = if case.header_name_lower { n.to_lowercase() } else { n.to_string() };
         req.add_header(name.clone(), v.clone(), rc.ignore_header_case);
